@@ -187,9 +187,13 @@ def pbDecryptTail (blockSize : Nat) (decrypt : Bytes → Bytes) (encrypted : Byt
 
 /-! ## reading the MAC fields of a PFX (DER) -/
 
-/-- one TLV: (tag, contents, rest). Lengths: short form, or long form with 1..4 length octets. -/
+/-- one TLV: (tag, contents, rest). Single-octet tags only. Lengths: short form, or long form with
+    1..4 length octets. -/
 def tlv : Bytes → Option (UInt8 × Bytes × Bytes)
   | tag :: l :: rest =>
+    -- high-tag-number form (low five bits all set): never written by OpenSSL here; encoding/asn1 reads
+    -- further tag octets, which this reader does not follow
+    if tag &&& 0x1f = 0x1f then none else
     if l < 0x80 then
       if rest.length < l.toNat then none else some (tag, rest.take l.toNat, rest.drop l.toNat)
     else
@@ -244,9 +248,9 @@ def parsePfxMac (file : Bytes) : Option PfxMac := do
       | [(0x06, ctype), (0xa0, wrapped)] => some (ctype, wrapped)
       | _ => none
     -- the code unmarshals the [0] contents into an asn1.RawValue: ANY single-byte tag is taken (OpenSSL
-    -- writes OCTET STRING); only the high-tag-number form changes how the header is read
+    -- writes OCTET STRING)
     let (t2, content, rest2) ← tlv wrapped
-    if (t2 &&& 0x1f) = 0x1f ∨ !rest2.isEmpty then none
+    if !rest2.isEmpty then none
     let md ← children macData
     let (digestInfo, salt, iters) ← match md with
       | [(0x30, di), (0x04, salt)] => some (di, salt, (1 : Int))
